@@ -113,6 +113,7 @@ type Sym struct {
 	// when the root function is in the same package.
 	InlineSamePkg bool
 	noInline      map[*ssa.Function]bool
+	pointees      map[*ssa.Parameter]*Term // content of the object a pointer parameter designates, as seen at the call
 	inBufferCat   bool
 	// for closure bodies: the evaluator of the enclosing activation and the
 	// MakeClosure instruction, to resolve captured locals
@@ -544,8 +545,157 @@ func readOnlyCall(c ssa.CallInstruction) bool {
 		case "Type", "TruncatedTokenKeyID", "Equal", "Equals":
 			return InModule(f)
 		}
+		// computed: an in-module callee that neither stores through, nor lets
+		// escape, any of the pointers it receives
+		if InModule(f) && f.Blocks != nil {
+			for i, a := range cc.Args {
+				if _, isPtr := a.Type().Underlying().(*types.Pointer); isPtr {
+					if i >= len(f.Params) || !paramShallowReadOnly(f, i, 0) {
+						return false
+					}
+				}
+			}
+			return true
+		}
 	}
 	return false
+}
+
+func paramIndex(v *ssa.Parameter) int {
+	for i, p := range v.Parent().Params {
+		if p == v {
+			return i
+		}
+	}
+	return -1
+}
+
+// paramShallowReadOnly: the function never stores to the object its idx-th
+// (pointer) parameter designates - neither to the object nor to a field or
+// element address derived from it - and does not let the pointer escape
+// (stored, returned, converted to an interface, handed to a callee that is not
+// itself shallow-read-only). Writes to memory reached through values *loaded*
+// from the object (the bytes of a slice field) are not writes to the object.
+var shallowROMemo = map[[2]interface{}]int{}
+
+func paramShallowReadOnly(f *ssa.Function, idx int, depth int) bool {
+	if idx < 0 || idx >= len(f.Params) || f.Blocks == nil {
+		return false
+	}
+	key := [2]interface{}{f, idx}
+	switch shallowROMemo[key] {
+	case 1:
+		return true
+	case 2:
+		return false
+	case 3:
+		return true // in progress (recursion): optimistic, resolved by the outer call
+	}
+	if depth > 5 {
+		return false
+	}
+	shallowROMemo[key] = 3
+	ok := addrReadOnly(f.Params[idx], depth, map[ssa.Value]bool{})
+	if ok {
+		shallowROMemo[key] = 1
+	} else {
+		shallowROMemo[key] = 2
+	}
+	return ok
+}
+
+func addrReadOnly(v ssa.Value, depth int, seen map[ssa.Value]bool) bool {
+	if seen[v] {
+		return true
+	}
+	seen[v] = true
+	refs := v.Referrers()
+	if refs == nil {
+		return true
+	}
+	for _, r := range *refs {
+		switch x := r.(type) {
+		case *ssa.DebugRef:
+		case *ssa.UnOp:
+			// load through the address: fine
+		case *ssa.FieldAddr:
+			if !addrReadOnly(x, depth, seen) {
+				return false
+			}
+		case *ssa.IndexAddr:
+			if x.X == v {
+				if _, isSlice := v.Type().Underlying().(*types.Slice); !isSlice {
+					if !addrReadOnly(x, depth, seen) {
+						return false
+					}
+				}
+			}
+		case *ssa.Store:
+			if x.Val == v && x.Addr != v {
+				// spilled into a local cell (captured by a closure): follow the
+				// cell's loads, here and in the closures that capture it
+				if cell, ok := x.Addr.(*ssa.Alloc); ok && cellReadOnly(cell, x, depth, seen) {
+					continue
+				}
+			}
+			return false // written through, or the address is stored somewhere
+		case *ssa.BinOp:
+			// comparison
+		case *ssa.Phi, *ssa.ChangeType:
+			if !addrReadOnly(x.(ssa.Value), depth, seen) {
+				return false
+			}
+		case *ssa.If:
+		case ssa.CallInstruction:
+			cc := x.Common()
+			if b, ok := cc.Value.(*ssa.Builtin); ok {
+				switch b.Name() {
+				case "len", "cap", "print", "println":
+					continue
+				}
+				return false
+			}
+			g := cc.StaticCallee()
+			if g == nil || !InModule(g) || g.Blocks == nil {
+				return false
+			}
+			for i, a := range cc.Args {
+				if a == v && !paramShallowReadOnly(g, i, depth+1) {
+					return false
+				}
+			}
+			if _, isGo := x.(*ssa.Go); isGo {
+				return false
+			}
+		default:
+			return false
+		}
+	}
+	return true
+}
+
+// bindArgs binds the callee's parameters in the child evaluator to the terms
+// of the caller's arguments; for pointer arguments it also records the content
+// of the designated object as seen at the call, so that fields read through
+// the parameter are named the way the caller names them.
+func (s *Sym) bindArgs(ch *Sym, f *ssa.Function, args []ssa.Value, at ssa.Instruction) {
+	for i, prm := range f.Params {
+		if i >= len(args) {
+			break
+		}
+		ch.params[prm] = s.Of(args[i])
+		if _, isPtr := args[i].Type().Underlying().(*types.Pointer); isPtr && at != nil {
+			if _, isStruct := deref(args[i].Type()).Underlying().(*types.Struct); isStruct {
+				pt := s.pointeeAt(args[i], at)
+				if pt != nil && pt.String() != ch.params[prm].String() {
+					if ch.pointees == nil {
+						ch.pointees = map[*ssa.Parameter]*Term{}
+					}
+					ch.pointees[prm] = pt
+				}
+			}
+		}
+	}
 }
 
 // closestDominating picks, among defs, the one that dominates `at` and is
@@ -822,6 +972,13 @@ func (s *Sym) loadField(fa *ssa.FieldAddr, at ssa.Instruction) *Term {
 // at instruction `at`. Local variables are resolved to their reaching
 // definition; other heap objects are named by the pointer's own term.
 func (s *Sym) pointeeAt(v ssa.Value, at ssa.Instruction) *Term {
+	if prm := spilledParam(v); prm != nil {
+		for o := s; o != nil; o = o.outer {
+			if t, ok := o.pointees[prm]; ok && paramShallowReadOnly(prm.Parent(), paramIndex(prm), 0) {
+				return t
+			}
+		}
+	}
 	switch v := v.(type) {
 	case *ssa.Alloc:
 		if v.Parent() == at.Parent() {
@@ -988,11 +1145,7 @@ func (s *Sym) inline(f *ssa.Function, call *ssa.Call) *Term {
 		}
 	}
 	c := s.child(f)
-	for i, p := range f.Params {
-		if i < len(call.Call.Args) {
-			c.params[p] = s.Of(call.Call.Args[i])
-		}
-	}
+	s.bindArgs(c, f, call.Call.Args, call)
 	return c.returnTerm()
 }
 
@@ -1951,4 +2104,118 @@ func canonBigBytes(t *Term) *Term {
 		}
 	}
 	return t
+}
+
+// cellReadOnly: the local cell holds a pointer stored once (by `init`); every
+// use of the cell is a load whose value is used read-only, possibly inside a
+// closure capturing the cell.
+func cellReadOnly(cell *ssa.Alloc, init *ssa.Store, depth int, seen map[ssa.Value]bool) bool {
+	var uses func(c ssa.Value) bool
+	uses = func(c ssa.Value) bool {
+		refs := c.Referrers()
+		if refs == nil {
+			return true
+		}
+		for _, r := range *refs {
+			switch x := r.(type) {
+			case *ssa.DebugRef:
+			case *ssa.Store:
+				if x != init {
+					return false
+				}
+			case *ssa.UnOp:
+				if !addrReadOnly(x, depth, seen) {
+					return false
+				}
+			case *ssa.MakeClosure:
+				fn, ok := x.Fn.(*ssa.Function)
+				if !ok {
+					return false
+				}
+				for i, b := range x.Bindings {
+					if b == c {
+						if i >= len(fn.FreeVars) || !uses(fn.FreeVars[i]) {
+							return false
+						}
+					}
+				}
+			default:
+				return false
+			}
+		}
+		return true
+	}
+	return uses(cell)
+}
+
+// spilledParam: v is a parameter, or a load of a local cell (or of a closure's
+// free variable bound to such a cell) that holds a parameter stored exactly once.
+func spilledParam(v ssa.Value) *ssa.Parameter {
+	for i := 0; i < 4; i++ {
+		switch x := v.(type) {
+		case *ssa.Parameter:
+			return x
+		case *ssa.UnOp:
+			if x.Op != token.MUL {
+				return nil
+			}
+			switch c := x.X.(type) {
+			case *ssa.Alloc:
+				var val ssa.Value
+				n := 0
+				for _, r := range *c.Referrers() {
+					if st, ok := r.(*ssa.Store); ok && st.Addr == c {
+						n++
+						val = st.Val
+					}
+				}
+				if n != 1 {
+					return nil
+				}
+				v = val
+			case *ssa.FreeVar:
+				// find the binding in the enclosing function's MakeClosure
+				fn := c.Parent()
+				idx := -1
+				for i, fv := range fn.FreeVars {
+					if fv == c {
+						idx = i
+					}
+				}
+				par := fn.Parent()
+				if idx < 0 || par == nil {
+					return nil
+				}
+				var cell ssa.Value
+				for _, b := range par.Blocks {
+					for _, in := range b.Instrs {
+						if mc, ok := in.(*ssa.MakeClosure); ok && mc.Fn == ssa.Value(fn) && idx < len(mc.Bindings) {
+							cell = mc.Bindings[idx]
+						}
+					}
+				}
+				al, ok := cell.(*ssa.Alloc)
+				if !ok {
+					return nil
+				}
+				var val ssa.Value
+				n := 0
+				for _, r := range *al.Referrers() {
+					if st, ok := r.(*ssa.Store); ok && st.Addr == al {
+						n++
+						val = st.Val
+					}
+				}
+				if n != 1 {
+					return nil
+				}
+				v = val
+			default:
+				return nil
+			}
+		default:
+			return nil
+		}
+	}
+	return nil
 }
